@@ -2,6 +2,7 @@ package e2
 
 import (
 	"fmt"
+	"google.golang.org/protobuf/types/known/timestamppb"
 	"math/rand"
 	"time"
 
@@ -23,6 +24,7 @@ type PoseStats struct {
 	Findings                 []*check.Finding
 	Inconclusive             string
 	Desc                     string
+	TimestampMode            string // how the owner stamped its updates
 }
 
 func pf(clause, trigger, format string, a ...any) *check.Finding {
@@ -78,6 +80,8 @@ func PoseStream(p *sut.Proc, seed int64, frame time.Duration) (st *PoseStats) {
 	seq := map[uint32]float32{}
 	nUpd := 5 + r.Intn(196)
 	badTags := map[int64]string{}
+	tsMode := r.Intn(6)
+	st.TimestampMode = []string{"increasing", "going backwards", "standing still", "epoch", "jumping", "random"}[tsMode]
 	for i := 0; i < nUpd; i++ {
 		e := ents[r.Intn(len(ents))]
 		switch x := r.Intn(40); {
@@ -106,7 +110,26 @@ func PoseStream(p *sut.Proc, seed int64, frame time.Duration) (st *PoseStats) {
 			continue
 		}
 		seq[e]++
-		if _, err := owner.Pose(e, seq[e]); err != nil {
+		// the message timestamp is the client's business (its clock may step back,
+		// stand still or be unset): the order of the updates is the order sent
+		var ts *timestamppb.Timestamp
+		switch tsMode {
+		case 0:
+			ts = d.NewTag()
+		case 1:
+			ts = &timestamppb.Timestamp{Seconds: 1_000_000 - int64(i)} // going backwards
+		case 2:
+			ts = &timestamppb.Timestamp{Seconds: 1_000_000} // standing still
+		case 3:
+			// (an absent timestamp is a malformed message, answered by ending the
+			// connection - C08's catalogue; the epoch is the nearest well-formed value)
+			ts = &timestamppb.Timestamp{}
+		case 4:
+			ts = &timestamppb.Timestamp{Seconds: []int64{4_000_000_000, 1, 2_000_000_000, 0}[i%4], Nanos: int32(i)} // jumping
+		default:
+			ts = &timestamppb.Timestamp{Seconds: 1_000_000 + int64(r.Intn(1000)), Nanos: int32(r.Intn(1_000_000_000))}
+		}
+		if err := owner.Send(&hagallpb.EntityUpdatePose{Type: d.TPoseUpdate, Timestamp: ts, EntityId: e, Pose: &hagallpb.Pose{Px: seq[e], Rw: 1}}); err != nil {
 			panic(err)
 		}
 		st.Sent++
